@@ -124,6 +124,27 @@ def check(tier, seed, replay=None):
             rec.update({"policy": rc["policy"], "pipeline": rc["pipeline"], "regions": rc["regions"], "before": rc["before"], "vals": rc["vals"], "hdr": rc.get("hdr", 0),
                         "base": list(bytes.fromhex(o[1]["out"])), "bres": o[1]["res"] if not o[1]["err"] else "stderr-not-empty"})
         recs.append(rec)
+    # the same runs through the real executable (main.rs wires the streams and ends the process): whatever go() wrote before a failure must
+    # have reached the standard output of the process too
+    if not replay or recipes[0]["kind"] == "noise":
+        import c20 as C20
+        import concurrent.futures as cf
+        binary = build_jawk_bin()
+        pick = [ri for ri, rc in enumerate(recipes) if rc["kind"] == "noise"]
+        pick = pick if len(pick) <= (80 if quick else 3000) else rnd.sample(pick, 80 if quick else 3000)
+        with cf.ThreadPoolExecutor(max_workers=8) as ex:
+            procs = list(ex.map(lambda ri: C20.spawn(binary, recipes[ri]["runs"][0]["argv"], bytes.fromhex(recipes[ri]["runs"][0]["stdin"]), "normal"), pick))
+        for ri, (code, pout, perr) in zip(pick, procs):
+            o = per[ri][0]
+            want = bytes.fromhex(o["out"])
+            if code == -999:
+                chk.violation("the executable did not terminate: %s" % recipes[ri]["runs"][0]["argv"], {"recipe": recipes[ri]})
+            elif pout != want or (code == 0) != (o["res"] == "ok"):
+                chk.violation("the executable's standard output / exit status differs from what jawk::go wrote / returned: argv=%s stdin=%r exit=%s stdout=%r, in-process %s %r"
+                              % (recipes[ri]["runs"][0]["argv"], bytes.fromhex(recipes[ri]["runs"][0]["stdin"])[:120], code, pout[:200], o["res"], want[:200]),
+                              {"recipe": recipes[ri], "process": {"exit": code, "stdout": pout.decode("utf-8", "replace")[:1000], "stderr": perr.decode("utf-8", "replace")[:500]}})
+        chk.evaluations += len(pick)
+        chk.notes["runs_repeated_through_the_executable"] = len(pick)
     flags, _ = run_trace_spec("Trace_C06", recs, "c06", nproc=2 if quick else 12)
     chk.traces = len(recs)
     chk.evaluations = len(cases)
